@@ -190,10 +190,13 @@ func (s *Stash) clear(start, end int) {
 			end = len(s.forms) - 1
 		}
 		if start <= end {
-			newEnd := len(s.forms) - (end - start) - 1
-			copy(s.forms[:start], s.forms[end:])
+			// start and end are numbered from the most recent form, as in Nth.
+			lo := len(s.forms) - end - 1
+			hi := len(s.forms) - start
+			newEnd := len(s.forms) - (hi - lo)
+			copy(s.forms[lo:], s.forms[hi:])
 			// Make sure references are removed so GC can collect them.
-			for i := end + 1; i < len(s.forms); i++ {
+			for i := newEnd; i < len(s.forms); i++ {
 				s.forms[i] = nil
 			}
 			s.forms = s.forms[:newEnd]
